@@ -15,9 +15,11 @@ REAL runner (harness/cmd/h-unused) and
   (ii) MustReport(graph) must be a subset of the reported objects          - else VIOLATION (false negative)
   (O)  the reported set is handed back to TLC (UnusedObs.tla) which evaluates the spec's DeletionSafe on
        it; a disagreement with go/types is a model bug                     -> INCONCLUSIVE.
-Corpora: unused/testdata and repository packages, with MustReport computed syntactically from
-types.Info.Uses (excluding what the documented rules use for reasons other than references: init, main,
-blank, generated files, linkname, cgo exports, lint:ignore).
+Corpora: unused/testdata, repository packages and the hand-written shapes module
+(harness/cmd/h-unused/testdata/shapes: every numbered rule of unused.go in syntactic positions outside the
+vocabulary of Unused.tla), with MustReport computed syntactically from types.Info.Uses (excluding what the
+documented rules use for reasons other than references: init, main, blank, generated files, linkname, cgo
+exports, lint:ignore).
 """
 import json
 import os
@@ -142,6 +144,13 @@ def check_graphs(ctx, helper, cases):
 # corpora
 
 REPO_PATTERNS_QUICK = "./unused ./pattern ./config ./analysis/edit ./internal/sync"
+SHAPES = os.path.join(vlib.HARNESS, "cmd", "h-unused", "testdata", "shapes")
+
+
+def corpus_key(tag, pid, obj):
+    """Replay key of a corpus finding; for the shapes corpus it names the package."""
+    k = vlib.canon_key(obj)
+    return "shapes-%s-%s" % (pid.split("/")[-1], k) if tag == "shapes" else k
 
 
 def check_corpus(ctx, helper, tag, moddir, patterns, min_pkgs):
@@ -162,7 +171,7 @@ def check_corpus(ctx, helper, tag, moddir, patterns, min_pkgs):
         for m in t.get("must") or []:
             stats["must_objects"] += 1
             if (m["file"], m["line"], m["col"]) not in rep:
-                ctx.violation(vlib.canon_key({"corpus": tag, "pkg": pid, "obj": m["name"], "kind": m["kind"]}) + "-miss",
+                ctx.violation(corpus_key(tag, pid, {"corpus": tag, "pkg": pid, "obj": m["name"], "kind": m["kind"]}) + "-miss",
                               "U1000 does not report %s %s (%s:%d) in %s: unexported, package-level, no identifier refers to it" % (
                                   m["kind"], m["name"], m["file"], m["line"], pid),
                               {"kind": "corpus-miss", "corpus": tag, "pkg": pid, "object": m})
@@ -182,7 +191,7 @@ def check_corpus(ctx, helper, tag, moddir, patterns, min_pkgs):
         stats["neutralised_writes"] += dl["neutralised_writes"]
         stats["dropped_imports"] += dl["dropped_imports"]
         if dl.get("errors"):
-            ctx.violation(vlib.canon_key({"corpus": tag, "pkg": pid}) + "-del",
+            ctx.violation(corpus_key(tag, pid, {"corpus": tag, "pkg": pid}) + "-del",
                           "deleting what U1000 reports in %s breaks the package: %s" % (pid, dl["errors"][:3]),
                           {"kind": "corpus-del", "corpus": tag, "pkg": pid, "errors": dl["errors"], "after": dl.get("source"),
                            "reported": raw[pid].get("unused")})
@@ -199,7 +208,14 @@ def run_corpora(ctx, helper):
         f.write("module example.com\n\ngo 1.22\n")
     s1 = check_corpus(ctx, helper, "testdata", td, "./...", 40)
     s2 = check_corpus(ctx, helper, "repo", vlib.REPO, REPO_PATTERNS_QUICK if ctx.quick else "./...", 5)
-    return {"testdata": dict(s1), "repo": dict(s2)}
+    # the hand-written shapes module (both tiers: it is tiny); its std dependencies are already in the shared cache
+    sd = ctx.tmp("corp-shapes")
+    shutil.copytree(SHAPES, sd, dirs_exist_ok=True)
+    s3 = check_corpus(ctx, helper, "shapes", sd, "./...", 35)
+    if (s3["reported_objects"] < 100 or s3["must_objects"] < 50) and not ctx.violations:
+        raise Inconclusive("corpus shapes: only %d reported / %d MustReport objects (the corpus is meant to contain unused objects)" % (
+            s3["reported_objects"], s3["must_objects"]))
+    return {"testdata": dict(s1), "repo": dict(s2), "shapes": dict(s3)}
 
 
 # ---------------------------------------------------------------------------------------------
@@ -271,7 +287,7 @@ def run(ctx):
     corp = run_corpora(ctx, helper)
     lap(ctx, "corpora")
 
-    evaluations = stats["graphs"] + corp["testdata"].get("packages", 0) + corp["repo"].get("packages", 0) + n_self
+    evaluations = stats["graphs"] + sum(corp[t].get("packages", 0) for t in ("testdata", "repo", "shapes")) + n_self
     ctx.coverage = {
         "evaluations": evaluations,
         "distinct_nontrivial": nontrivial,
@@ -302,7 +318,8 @@ def run(ctx):
         "MustReport is the literal reading: no identifier at all resolves to the object (self references and method receivers count as references); "
         "aliases and const-group members are not in MustReport",
         "corpora MustReport excludes init, main (package main), blank, generated files, go:linkname / cgo-exported names and files with a lint:ignore U1000 directive",
-        "vocabulary of Unused.tla (13 kinds, 11 relations); other shapes only through the corpora",
+        "vocabulary of Unused.tla (13 kinds, 11 relations); other shapes (function-local types, imports, generics beyond one parameter, "
+        "statements, ...) only through the corpora, in particular the hand-written shapes module",
     ]
     if disagreements and not ctx.violations:
         d = os.path.join(vlib.VERIF, "replays", "C07")
